@@ -1,4 +1,5 @@
 import GtirbVerif.Lemmas.AsmChunks
+import GtirbVerif.Lemmas.AsmNames
 import Std.Data.String.ToNat
 
 /-!
@@ -25,7 +26,11 @@ import Std.Data.String.ToNat
     temporary label with different patch ids get different names, and two different labels of
     one copy stay different;
   - `chunks_eq_whole`: assembling `c1` and then `c2` gives the same state as assembling
-    `c1 ++ c2`, for every starting state, as long as `c1` mentions no label that `c2` defines.
+    `c1 ++ c2`, for every starting state, as long as `c1` mentions no label that `c2` defines;
+  - `one_name_one_symbol`: in every state reachable from the empty one over any chunk list the names
+    of the labels and of the undefined symbols created so far are pairwise different and none of
+    them is a name of the target module (so a Result never holds two symbols for one name and
+    never redefines a module symbol).
 -/
 namespace GtirbVerif.Props.C13
 open GtirbVerif.Asm
@@ -223,6 +228,17 @@ theorem chunks_eq_whole (t : Target) (st : AState) (c1 c2 : List Event)
         simp only [namesOf] at hnl
         rw [hnl]; exact k.2
       · rw [hlen]; exact h2
+
+/-! ### one name, one symbol -/
+
+/-- **one name, one symbol**: whatever is assembled, in however many chunks, the symbols the
+assembler holds (labels and undefined symbols) have pairwise different names, none of which the
+target module defines -/
+theorem one_name_one_symbol {t : Target} {chunks : List (List Event)} {st : AState}
+    (h : assembleChunks t {} chunks = .ok st) :
+    (namesOf st.locals ++ namesOf st.undefs).Nodup ∧
+    ∀ n ∈ namesOf st.locals ++ namesOf st.undefs, t.moduleSyms.any (·.1 == n) = false :=
+  assembleChunks_names (NamesOk.empty t) h
 
 /-! ### the statements are not vacuous -/
 
